@@ -1578,6 +1578,10 @@ impl PeerConnection {
             }
         }
 
+        // Publish the remote description before any transport can start: start_dtls()
+        // (sctp_needed, RTCP address) and setup_sdes() read it from another task.
+        *self.inner.remote_description.lock() = Some(desc.clone());
+
         // Start ICE
         let mut ufrag = None;
         let mut pwd = None;
